@@ -61,10 +61,19 @@ def ls(cpu, o, row):
     # ---- dual
     if base_op in ('LDRD', 'STRD'):
         t2 = o['t2']
+        # with the Large Physical Address Extension a doubleword-aligned LDRD / STRD is ONE 64-bit access (one translation);
+        # the register halves are chosen by the data endianness.  It differs from two word accesses only when the first
+        # word stored changes the translation of the second (a store into the live translation table).
+        single64 = bool(cpu.cfg.get('have_lpae')) and (address & 7) == 0
+        big = bool(cpu.bit(9))
         if load:
             try:
-                v1 = cpu.MemA(address, 4)
-                v2 = cpu.MemA((address + 4) & M32, 4)
+                if single64:
+                    data = cpu.MemA(address, 8)
+                    v1, v2 = ((data >> 32) & M32, data & M32) if big else (data & M32, (data >> 32) & M32)
+                else:
+                    v1 = cpu.MemA(address, 4)
+                    v2 = cpu.MemA((address + 4) & M32, 4)
             except RefAbort:
                 # a Data Abort on either word leaves the destination registers UNKNOWN - also when one of them is the base
                 # register (no write-back): same latitude as for the base-in-list case of an aborted LDM
@@ -76,8 +85,12 @@ def ls(cpu, o, row):
             cpu.setR(t2, v2)
         else:
             try:
-                cpu.MemA(address, 4, cpu.R(t))
-                cpu.MemA((address + 4) & M32, 4, cpu.R(t2))
+                if single64:
+                    lo_, hi_ = (cpu.R(t2), cpu.R(t)) if big else (cpu.R(t), cpu.R(t2))
+                    cpu.MemA(address, 8, ((hi_ & M32) << 32) | (lo_ & M32))
+                else:
+                    cpu.MemA(address, 4, cpu.R(t))
+                    cpu.MemA((address + 4) & M32, 4, cpu.R(t2))
             except RefAbort:
                 _written_unknown(cpu)
                 raise
